@@ -284,6 +284,18 @@ def bnd_sequences(tier, seed):
             run_sequence(list(pre) + list(tail), fails, {"prefix": len(pre)})
             if len(fails) > 30:
                 break
+    # life cycles: delete (all / one / the other) -> redefine the same ids with other variables -> link again -> enable:
+    # whatever was derived from the old definition (and possibly kept) must not survive
+    lifecycles = 0
+    for pre in setup[:4]:
+        for delete in ([("define", [])], [("define", [(900, [])])], [("define", [(900, [])]), ("define", [(901, [])])], [("link", [(1, [])])]):
+            for redefine in ([(900, [1003])], [(900, [1003, 1002])], [(901, [1002]), (900, [1003])]):
+                for relink in ([(1, [900])], [(1, [901, 900])], [(2, [900])]):
+                    seq = list(pre) + list(delete) + [("define", redefine), ("link", relink), ("enable", (True, [])), ("trigger", relink[0][0])]
+                    n_eval += 1
+                    lifecycles += 1
+                    distinct.add(str(seq))
+                    run_sequence(seq, fails, {"lifecycle": True})
     for _ in range(60 if tier == "quick" else 600):
         seq = [rnd.choice(reqs) for _ in range(rnd.randint(4, 8))]
         n_eval += 1
@@ -291,5 +303,5 @@ def bnd_sequences(tier, seed):
         run_sequence(seq, fails, {"random": True})
     return {"evaluations": n_eval, "distinct": len(distinct), "failures": list(fails),
             "scope": f"RPTID in {RPT}, CEID in {CE} (+unknown 77/88), VID in {VID_OK} (+unknown); {len(reqs)} requests incl. duplicates inside one request, deletions of linked reports, "
-                     f"empty lists; all sequences of {depth} requests after 5 prefixes, random sequences of 4..8",
+                     f"empty lists; all sequences of {depth} requests after 5 prefixes, {lifecycles} delete/redefine/relink life cycles, random sequences of 4..8",
             "rule": "distinct = request sequences", "samples": [[["define", [[900, [1002]]]], ["link", [[1, [900]]]]]]}
